@@ -96,7 +96,9 @@ def _unb58(s):  # harness-side decoder for constructing mutations of strings the
 # ------------------------------------------------------------------------------ recording one scenario
 def record_derive(seed, net, path, j=0, notation="prime", full=True):
     """Call the real code for every node of `path` (list of 32-bit child numbers) below the master key of
-    `seed`; returns the 'derive' event of spec/Trace_Bip32.tla."""
+    `seed`; returns the 'derive' event of spec/Trace_Bip32.tla.  Whole-path derivations (xp, pp) are recorded at
+    the end of the path, at one intermediate node and around the first hardened component after the neuter
+    point (derive_from_path walks every prefix internally, so this keeps the cost linear)."""
     import bits.bips.bip32 as b32
     from bits.wallet.hd import derive_from_path, get_xpub
 
@@ -111,6 +113,10 @@ def record_derive(seed, net, path, j=0, notation="prime", full=True):
     e["root"] = item(root) if "ok" in m else dict(NA)
     nodes = []
     rootb = root.get("ok")
+    L = len(path)
+    xp_at = {0, L, (sum(seed) % L) + 1 if L else 0}
+    first_hard = next((t for t in range(j + 1, L + 1) if path[t - 1] >= H), None)
+    pp_at = {j, L, j + 1} | ({first_hard, first_hard - 1} if first_hard else set())
     xs_prev = pu_prev = kc_prev = K_prev = None
     pu_j = None
     for t in range(len(path) + 1):
@@ -121,7 +127,7 @@ def record_derive(seed, net, path, j=0, notation="prime", full=True):
         else:
             xs = rc(derive_from_path, "m/" + comps[t - 1], xs_prev) if xs_prev is not None else None
         nd["xs"] = item(xs) if xs is not None else dict(NA)
-        xp = rc(derive_from_path, "m/" + "/".join(comps[:t]) if t else "m", rootb) if rootb is not None and full else None
+        xp = rc(derive_from_path, "m/" + "/".join(comps[:t]) if t else "m", rootb) if rootb is not None and full and t in xp_at else None
         nd["xp"] = item(xp) if xp is not None else dict(NA)
         xs_cur = xs["ok"] if xs is not None and "ok" in xs and isinstance(xs["ok"], (bytes, bytearray)) else None
         pu = rc(get_xpub, xs_cur) if xs_cur is not None else None
@@ -135,7 +141,7 @@ def record_derive(seed, net, path, j=0, notation="prime", full=True):
         if t == j:
             pu_j = pu_cur
         pp = None
-        if t >= j and pu_j is not None and full:
+        if t >= j and pu_j is not None and full and t in pp_at:
             pp = rc(derive_from_path, "M/" + "/".join(comps[j:t]) if t > j else "M", pu_j)
         nd["pp"] = item(pp) if pp is not None else dict(NA)
         # --- the CKD functions on numbers / points
@@ -202,3 +208,596 @@ def vector_events():
     for i, e in enumerate(ev):
         e["id"] = i
     return ev
+
+
+# ------------------------------------------------------------------------------ judging with TLC
+def judge(events, tag, bins=16, timeout=3000):
+    """Run Trace_Bip32 over the events, cost-balanced over `bins` JVMs.  Returns ({id: verdict}, stats)."""
+    def cost(e):
+        return 1 + 12 * len(e["path"]) if e["op"] == "derive" else 1
+    order = sorted(events, key=cost, reverse=True)
+    total = sum(cost(e) for e in order)
+    nb = max(1, min(bins, len(order), 1 + total // 25))
+    packs, load = [[] for _ in range(nb)], [0] * nb
+    for e in order:
+        k = load.index(min(load))
+        packs[k].append(e)
+        load[k] += cost(e)
+    verdicts, stats = {}, {"states": 0, "distinct": 0, "jvms": 0, "tlc_wall_s": 0.0}
+
+    def one(ix):
+        return vlib.validate_events("Trace_Bip32", [slim(e) for e in packs[ix]], chunk=len(packs[ix]), jobs=1,
+                                    tag=f"{tag}{ix}", timeout=timeout)
+    with ThreadPoolExecutor(max_workers=16) as ex:
+        for v, st in ex.map(one, range(nb)):
+            verdicts.update(v)
+            for k in stats:
+                stats[k] += st[k]
+    stats["tlc_wall_s"] = round(stats["tlc_wall_s"], 1)
+    for v in verdicts.values():
+        if v.startswith("SPEC") or v == "unknown-op":
+            raise vlib.MachineryFailure(f"Trace_Bip32: the specification is inconsistent with itself at full size: {v}")
+    return verdicts, stats
+
+
+def case_of(e):
+    """The replayable description of an event (inputs + what the code returned)."""
+    c = {"stage": "C", **{k: v for k, v in e.items() if k != "id"}}
+    return c
+
+
+# ------------------------------------------------------------------------------ stage A
+def _stage_a_jobs(ctx):
+    q = ctx.tier == "quick"
+    jobs = {
+        "MC_Bip32_S1.cfg": ("MC_Bip32", dict(workers=4)),
+        "MC_Bip32_S1_cov.cfg": ("MC_Bip32", dict(workers=2, coverage=True)),
+        "MC_Bip32_S1_dev.cfg": ("MC_Bip32", dict(workers=2)),
+        "MC_Bip32Path_S1q.cfg": ("MC_Bip32Path", dict(workers=3)),
+        "MC_Bip32Path_S1q_cov.cfg": ("MC_Bip32Path", dict(workers=2, coverage=True)),
+    }
+    if not q:
+        for s in ("S2", "S3", "S4"):
+            jobs[f"MC_Bip32_{s}.cfg"] = ("MC_Bip32", dict(workers=6))
+            jobs[f"MC_Bip32_{s}_cov.cfg"] = ("MC_Bip32", dict(workers=2, coverage=True))
+        for s in ("S1t", "S2t"):
+            jobs[f"MC_Bip32Path_{s}.cfg"] = ("MC_Bip32Path", dict(workers=8))
+            jobs[f"MC_Bip32Path_{s}_cov.cfg"] = ("MC_Bip32Path", dict(workers=2, coverage=True))
+    return jobs
+
+
+CKD_COV = ("CkdOk", "CkdILZero", "CkdILgeN", "CkdChildZero", "XkAny", "MasterOk", "MasterZero", "MasterGeN", "DeserAny", "StrAny")
+PATH_COV = ("StepOk", "StepFailHardenedFromPublic", "StepFailInvalidChild")
+
+
+def _stage_a_eval(ctx, res):
+    for cfg, r in sorted(res.items()):
+        if cfg.endswith("_dev.cfg"):
+            # vacuity guard 2: CKDpub without the I_L >= n test must break the commutation invariant
+            if r.completed or r.invariant != "Commute":
+                raise vlib.MachineryFailure(f"{cfg}: the pub-no-il-check deviation was not caught by Commute:\n" + r.error_text())
+            continue
+        if not r.completed:
+            raise vlib.MachineryFailure(f"stage A: TLC did not complete cleanly on {cfg}:\n{r.error_text()}")
+    for cfg, r in sorted(res.items()):
+        if cfg.endswith("_dev.cfg") or cfg.endswith("_cov.cfg"):
+            continue
+        cov = res[cfg.replace(".cfg", "_cov.cfg")]
+        if cov.distinct != r.distinct:
+            raise vlib.MachineryFailure(f"{cfg}: coverage run explored {cov.distinct} states, invariant run {r.distinct}")
+        path = "Path" in cfg
+        consts = ("path machine: master keys of the seeds x {main,test} x {private, neutered} x all paths over the 6 boundary indices up "
+                  "to MaxLen" if path else
+                  "all k in 1..n-1 x 3 chain codes x 6 boundary indices; 300 seeds; xkey x depth {0,1,254,255}; 36 payloads x 26 "
+                  "mutation classes; Base58Check level")
+        ctx.stage_a(cfg, r, constants=consts + " (small curve, toy HMAC, I_L in 0..n+3)")
+        # vacuity guard 1: the same state graph with -coverage (no invariants: instrumenting the EC recursion is too
+        # expensive): which outcome classes were explored
+        ctx.stage_a(cfg.replace(".cfg", "_cov.cfg"), cov, constants="same state graph, branch census (no invariants)",
+                    coverage_required=PATH_COV if path else CKD_COV)
+        ctx.cov["states"] -= cov.distinct          # the census re-explores the same states: do not count them twice
+        ctx.cov["transitions"] -= cov.generated
+
+
+# ------------------------------------------------------------------------------ stage B
+def _gen_cfg(ctx, slice_, nslices):
+    q = ctx.tier == "quick"
+    consts = (f"GSeed = {ctx.seed % 1000003} MaxFull = {1 if q else 2} LongLens = {{{'2, 3, 5, 8' if q else '3, 4, 5, 6, 7, 8'}}} "
+              f"Rots = {{{'0, 3' if q else '0, 1, 2, 3, 4, 5, 6, 7'}}}")
+    text = ("CONSTANTS Big = TRUE\nCP <- SecP  CB <- SecB  CN <- SecN  CGx <- SecGx  CGy <- SecGy\n"
+            f"{consts} Slice = {slice_} NSlices = {nslices}\n")
+    return text, consts
+
+
+def _gen_rows(ctx, nslices):
+    os.makedirs(vlib.WORK, exist_ok=True)
+
+    def one(k):
+        out = os.path.join(vlib.WORK, f"b32rows-{k}.json")
+        cfg = os.path.join(vlib.WORK, f"Gen_Bip32-{k}.cfg")
+        with open(cfg, "w") as fh:
+            fh.write(_gen_cfg(ctx, k, nslices)[0])
+        r = vlib.tlc("Gen_Bip32", cfg, native=True, env={"OUT_FILE": out}, timeout=3000, tag=f"gb32-{os.getpid()}-{k}")
+        if not r.completed or not os.path.exists(out):
+            raise vlib.MachineryFailure("Gen_Bip32 failed:\n" + r.error_text())
+        rows = json.load(open(out))
+        os.remove(out)
+        os.remove(cfg)
+        tot = [p for p in r.prints if p and p[0] == "ROWS"]
+        return rows, (tot[0][3] if tot else 0), r.wall
+    rows, wall, total = [], 0.0, 0
+    with ThreadPoolExecutor(max_workers=16) as ex:
+        for rs, tot, w in ex.map(one, range(nslices)):
+            rows += rs
+            total = max(total, tot)
+            wall += w
+    rows.sort(key=lambda r: r["s"])
+    if len(rows) != total or [r["s"] for r in rows] != list(range(1, total + 1)):
+        raise vlib.MachineryFailure(f"Gen_Bip32: {len(rows)} rows for {total} scenarios")
+    return rows, wall
+
+
+def replay_row(ctx, row, stage="B"):
+    """Replay one TLC-generated scenario into the code; returns the number of comparisons made."""
+    import bits.bips.bip32 as b32
+    from bits.wallet.hd import derive_from_path, get_xpub
+
+    rc = vlib.run_call
+    seed, net = bytes(row["seed"]), row["net"]
+    path = [int.from_bytes(bytes(i), "big") for i in row["path"]]
+    comps = [comp(i) for i in path]
+    j = row["j"]
+    base = {"stage": stage, "op": "row", "s": row.get("s"), "shape": row.get("shape"), "seed": row["seed"], "net": net, "path": row["path"],
+            "j": j, "text": "m/" + "/".join(comps) if comps else "m", "root": row["root"], "nodes": row["nodes"]}
+    n = 0
+
+    def cmp(name, got, want_ok, want, t):
+        nonlocal n
+        n += 1
+        it = item(got)
+        if want_ok and it["st"] == "err":
+            ctx.violation(f"{name}-raised", dict(base, t=t, exc=it.get("exc")))
+        elif not want_ok and it["st"] == "ok":
+            ctx.violation("hardened-child-derived-from-public-key" if name.startswith("public") else f"{name}-defined-where-bip32-is-not",
+                          dict(base, t=t, got=it["v"]))
+        elif want_ok and it["v"] != want:
+            ctx.violation(f"{name}-wrong", dict(base, t=t, got=it["v"], expected=want))
+        return it
+
+    if not row["nodes"][0]["ok"]:
+        raise vlib.MachineryFailure("Gen_Bip32 produced an invalid master key (probability 2^-127): check the generator")
+    m = rc(b32.to_master_key, seed)
+    root = rc(b32.root_serialized_extended_key, *m["ok"], testnet=(net == "test")) if "ok" in m else m
+    it = cmp("root-xprv", root, True, row["root"], 0)
+    if it["st"] != "ok" or not it["v"]:
+        return n
+    rootb = bytes(it["v"])
+    xs_prev, pu_j = None, None
+    for t, nd in enumerate(row["nodes"]):
+        xs = rc(derive_from_path, "m", rootb) if t == 0 else (rc(derive_from_path, "m/" + comps[t - 1], xs_prev) if xs_prev is not None else None)
+        xs_cur = None
+        if xs is not None:
+            a = cmp("step-xprv", xs, nd["ok"], nd["xprv"], t)
+            xs_cur = bytes(a["v"]) if a["st"] == "ok" and a["v"] else None
+        cmp("path-xprv", rc(derive_from_path, "m/" + "/".join(comps[:t]) if t else "m", rootb), nd["ok"], nd["xprv"], t)
+        pu_cur = None
+        if xs_cur is not None:
+            a = cmp("xpub", rc(get_xpub, xs_cur), nd["ok"], nd["xpub"], t)
+            pu_cur = bytes(a["v"]) if a["st"] == "ok" and a["v"] else None
+        if t == j:
+            pu_j = pu_cur
+        if t >= j and pu_j is not None:
+            cmp("public-path", rc(derive_from_path, "M/" + "/".join(comps[j:t]) if t > j else "M", pu_j), nd["pubdef"], nd["pubstr"], t)
+            if nd["pubdef"] and nd["pubstr"] != nd["xpub"]:
+                raise vlib.MachineryFailure("Gen_Bip32: public and private derivation differ IN THE SPECIFICATION")
+        xs_prev = xs_cur
+    return n
+
+
+def _stage_b(ctx, rows, wall, consts):
+    n = 0
+    for row in rows:
+        n += replay_row(ctx, row)
+        hard = [i[0] >= 128 for i in row["path"]]
+        ctx.nontrivial(("B", tuple(row["shape"]), row["net"], row["j"]))
+        if any(hard[row["j"]:]):
+            ctx.nontrivial(("B", "public-undefined", tuple(row["shape"]), row["j"]))
+    steps = sum(len(r["path"]) for r in rows)
+    ctx.stage_b("Gen_Bip32", n, scenarios=len(rows), derivation_steps=steps, constants=consts, tlc_wall_s=round(wall, 1))
+    r = rows[len(rows) // 2]
+    ctx.sample({"stage": "B", "scenario": {"shape": r["shape"], "net": r["net"], "j": r["j"], "seed_len": len(r["seed"]),
+                                           "path": ["/".join(comp(int.from_bytes(bytes(i), "big")) for i in r["path"])],
+                                           "last_xpub": bytes(r["nodes"][-1]["xpub"]).decode()}})
+
+
+# ------------------------------------------------------------------------------ stage C: generation
+def _scenarios(ctx, rnd):
+    """(seed, net, path, j, notation) tuples: boundary sets first, then seeded random, up to the step budget."""
+    q = ctx.tier == "quick"
+    budget = 60 if q else 3000
+    lens = [16, 17, 31, 32, 33, 48, 63, 64]
+    out = []
+    steps = 0
+
+    def add(seedlen, net, path, j, notation="prime"):
+        nonlocal steps
+        out.append((rnd.randbytes(seedlen), net, list(path), j, notation))
+        steps += len(path)
+
+    def rn():
+        return rnd.randrange(2, H - 1)
+
+    add(16, "main", [], 0)
+    add(64, "test", [], 0)
+    singles = BOUNDARY + [rn(), H + rn()]
+    for k, i in enumerate(singles):
+        add(lens[k % 8], "main" if k % 2 else "test", [i], k % 2)
+    mix = BOUNDARY + [rn(), H + rn()]
+    rnd.shuffle(mix)
+    add(32, "main", mix, 3)
+    add(64, "test", list(reversed(mix)), 0)
+    add(20, "test", [0, 1, H - 1, 5, rn()], 0)              # all non-hardened: public derivation along the whole path
+    add(24, "main", [H, H + 1, 2 * H - 1, H + 7], 4)          # all hardened
+    add(33, "main", [H + 44, H, H, 0, 1], 3, "plain")         # hardened child numbers written as plain 32-bit decimals
+    while steps < budget:
+        L = rnd.choice([1, 2, 2, 3, 3, 4, 5, 6, 7, 8, 8])
+        path = [rnd.choice(BOUNDARY) if rnd.random() < .6 else (rn() if rnd.random() < .5 else H + rn()) for _ in range(L)]
+        add(rnd.randrange(16, 65), rnd.choice(["main", "test"]), path, rnd.randrange(L + 1), "plain" if rnd.random() < .1 else "prime")
+    return out
+
+
+def _x_with(p, want_on_curve, rnd, start=None):
+    """Harness-side search (input construction only) for an x coordinate that is / is not on secp256k1."""
+    x = rnd.randrange(1, p) if start is None else start
+    while True:
+        on = pow((pow(x, 3, p) + 7) % p, (p - 1) // 2, p) == 1
+        if on == want_on_curve:
+            return x
+        x = (x + 1) % p
+
+
+def mutations(payload, rnd, other=None):
+    """[(class, string bytes)] : field mutations of a valid 78-byte payload, plus length / checksum / character faults."""
+    import hashlib
+    p, n = SECP["p"], SECP["n"]
+    prv = payload[45] == 0
+    out = []
+
+    def put(cls, at, b):
+        out.append((cls, _b58(payload[:at] + b + payload[at + len(b):])))
+
+    out.append(("valid", _b58(payload)))
+    for ver in (VERSIONS["main"] + VERSIONS["test"]):
+        if ver != payload[:4]:
+            put("ver-" + ver.hex(), 0, ver)
+    bit = rnd.randrange(32)
+    put("ver-bitflip", 0, (int.from_bytes(payload[:4], "big") ^ (1 << bit)).to_bytes(4, "big"))
+    put("ver-zero", 0, b"\0" * 4)
+    put("ver-random", 0, rnd.randbytes(4))
+    put("depth-0", 4, b"\0")
+    put("depth-0-fp-only", 4, b"\0" + rnd.randbytes(4) + b"\0" * 4)
+    put("depth-0-idx-only", 4, b"\0" + b"\0" * 4 + rnd.choice([b"\0\0\0\1", b"\x80\0\0\0", rnd.randbytes(4)]))
+    put("depth-0-clean", 4, b"\0" * 9)
+    put("depth-random", 4, bytes([rnd.randrange(1, 256)]))
+    put("depth-255", 4, b"\xff")
+    for name, at, ln in (("fp", 5, 4), ("idx", 9, 4), ("cc", 13, 32)):
+        m = bytearray(payload[at:at + ln])
+        m[rnd.randrange(ln)] ^= 1 << rnd.randrange(8)
+        put(name + "-bitflip", at, bytes(m))
+    for pre in (0, 1, 2, 3, 4, 5, 0x80, 0xff):
+        if pre != payload[45]:
+            put(f"prefix-{pre:02x}", 45, bytes([pre]))
+    if prv:
+        for name, k in (("key-0", 0), ("key-1", 1), ("key-n-1", n - 1), ("key-n", n), ("key-n+1", n + 1), ("key-max", 2 ** 256 - 1),
+                        ("key-2^255", 2 ** 255)):
+            put(name, 46, k.to_bytes(32, "big"))
+        k = int.from_bytes(payload[46:], "big") ^ (1 << rnd.randrange(256))
+        put("key-bitflip", 46, k.to_bytes(32, "big"))
+    else:
+        x = int.from_bytes(payload[46:], "big")
+        put("pub-off-curve", 46, _x_with(p, False, rnd).to_bytes(32, "big"))
+        put("pub-off-curve-next", 46, _x_with(p, False, rnd, (x + 1) % p).to_bytes(32, "big"))
+        put("pub-other-point", 46, _x_with(p, True, rnd).to_bytes(32, "big"))
+        put("pub-parity-flip", 45, bytes([payload[45] ^ 1]))
+        put("pub-x-zero", 46, b"\0" * 32)
+        put("pub-x-eq-p", 46, p.to_bytes(32, "big"))
+        k = _x_with(p, True, rnd, rnd.randrange(1, 2 ** 32))      # x = p + k with k on the curve: not a field element
+        put("pub-x-ge-p", 46, (p + k).to_bytes(32, "big"))
+        put("pub-x-max", 46, b"\xff" * 32)
+        put("pub-x-bitflip", 46, (x ^ (1 << rnd.randrange(256))).to_bytes(32, "big"))
+    # length (with a correct checksum)
+    out.append(("len-77", _b58(payload[:-1])))
+    out.append(("len-79", _b58(payload + bytes([rnd.randrange(256)]))))
+    out.append(("len-74", _b58(payload[:74])))
+    out.append(("len-82", _b58(payload + rnd.randbytes(4))))
+    out.append(("len-0", _b58(b"")))
+    # checksum
+    cks = hashlib.sha256(hashlib.sha256(payload).digest()).digest()[:4]
+    for name, bad in (("cks-bitflip", bytes([cks[0] ^ (1 << rnd.randrange(8))]) + cks[1:]), ("cks-zero", b"\0" * 4),
+                      ("cks-last-bitflip", cks[:3] + bytes([cks[3] ^ (1 << rnd.randrange(8))])), ("cks-missing", b"")):
+        out.append((name, _b58raw(payload + bad)))
+    if other is not None:
+        out.append(("cks-of-other-key", _b58raw(payload + hashlib.sha256(hashlib.sha256(other).digest()).digest()[:4])))
+    # characters
+    s = _b58(payload)
+    i = rnd.randrange(len(s))
+    out.append(("char-subst", s[:i] + bytes([rnd.choice([c for c in ALPHA if c != s[i]])]) + s[i + 1:]))
+    out.append(("char-not-base58", s[:i] + rnd.choice([b"0", b"O", b"I", b"l", b" ", b"-"]) + s[i + 1:]))
+    out.append(("char-swap", s[:i - 1] + s[i:i + 1] + s[i - 1:i] + s[i + 1:] if i else s[1:2] + s[0:1] + s[2:]))
+    out.append(("str-truncated", s[:-1]))
+    out.append(("str-extended", s + bytes([rnd.choice(ALPHA)])))
+    out.append(("str-prepend-1", b"1" + s))
+    out.append(("str-empty", b""))
+    return out
+
+
+def _fields(v):
+    ver, depth, fp, idx, cc, key = v
+    if isinstance(key, int) and not isinstance(key, bool):
+        kb = key.to_bytes(32, "big")
+    else:
+        x, y = key
+        kb = x.to_bytes(32, "big") + y.to_bytes(32, "big")
+    out = bytes(ver) + bytes(depth) + bytes(fp) + bytes(idx) + bytes(cc) + kb
+    if len(bytes(ver)) != 4 or len(bytes(depth)) != 1 or len(bytes(fp)) != 4 or len(bytes(idx)) != 4 or len(bytes(cc)) != 32:
+        raise TypeError
+    return out
+
+
+def record_deser(s, cls):
+    import bits.bips.bip32 as b32
+    r = vlib.run_call(b32.deserialized_extended_key, bytes(s))
+    e = {"op": "deser", "s": list(s), "cls": cls, "acc": "ok" in r, "hasf": False, "f": []}
+    if "ok" in r:
+        try:
+            e["f"] = list(_fields(r["ok"]))
+        except Exception:  # noqa
+            e["f"] = []
+        e["hasf"] = True
+    else:
+        e["exc"] = r["err"]
+    return e
+
+
+def record_ser(prv, key, cc, depth, fp, idx, net, how):
+    """serialized_extended_key with depth / child number passed as bytes or as ints (both are in the signature),
+    or through bip43 (mainnet only), then deserialized again."""
+    import bits.bips.bip32 as b32
+    import bits.bips.bip43 as b43
+    d = depth.to_bytes(1, "big") if how[0] == "b" else depth
+    c = bytes(idx) if how[1] == "b" else int.from_bytes(bytes(idx), "big")
+    k = int.from_bytes(key, "big") if prv else (int.from_bytes(key[:32], "big"), int.from_bytes(key[32:], "big"))
+    if how[2:] == "43":
+        out = vlib.run_call(b43.serialized_extended_key, k, bytes(cc), d, bytes(fp), c)
+    else:
+        out = vlib.run_call(b32.serialized_extended_key, k, bytes(cc), d, bytes(fp), c, testnet=(net == "test"))
+    e = {"op": "ser", "prv": prv, "key": list(key), "cc": list(cc), "depth": depth, "fp": list(fp), "idx": list(idx), "net": net,
+         "how": how, "depth_type": "bytes" if how[0] == "b" else "int", "child_no_type": "bytes" if how[1] == "b" else "int",
+         "out": item(out), "cls": "ser-" + how}
+    back = vlib.run_call(b32.deserialized_extended_key, out["ok"]) if e["out"]["st"] == "ok" and e["out"]["v"] else None
+    e["back"] = item(back, _fields) if back is not None else dict(NA)
+    return e
+
+
+def _gen_c(ctx, rnd):
+    q = ctx.tier == "quick"
+    ev = []
+    scen = _scenarios(ctx, rnd)
+    recorded = record_scenarios(scen, 8 if q else 14)
+    for (seed, net, path, j, notation), e in zip(scen, recorded):
+        if notation == "plain" and any(nd["xs"]["st"] == "err" for nd in e["nodes"]):
+            # a plain decimal >= 2^31 as a path component is not BIP32 notation: refusing it is allowed
+            e = record_derive(seed, net, path, j, "prime")
+            notation = "prime"
+        e["notation"] = notation
+        hard = [i >= H for i in path]
+        e["cls"] = ("depth0" if not path else "all-hardened" if all(hard) else "all-normal" if not any(hard) else "mixed") + "-" + net
+        ev.append(e)
+    # valid serialised keys produced by the code (only used as mutation bases; validity is judged by TLC)
+    bases = []
+    for e in ev:
+        for nd in e["nodes"]:
+            for k in ("xs", "pu"):
+                if nd[k]["st"] == "ok" and nd[k]["v"]:
+                    bases.append(bytes(nd[k]["v"]))
+    rnd.shuffle(bases)
+    prv_b = [b for b in bases if b[1:4] == b"prv"]
+    pub_b = [b for b in bases if b[1:4] == b"pub"]
+    nb = 3 if q else 45
+    chosen = prv_b[:nb] + pub_b[:nb]
+    # make sure a depth-0 key of each type is among the bases (depth-0 rules need a master key to start from)
+    for e in ev[:2]:
+        for k in ("xs", "pu"):
+            if e["nodes"][0][k]["st"] == "ok":
+                chosen.append(bytes(e["nodes"][0][k]["v"]))
+    seen = set()
+    for bi, s in enumerate(chosen):
+        try:
+            raw = _unb58(s)
+        except ValueError:
+            continue
+        if len(raw) != 82:
+            continue
+        payload = raw[:78]
+        other = _unb58(chosen[(bi + 1) % len(chosen)])[:78]
+        for cls, m in mutations(payload, rnd, other):
+            if m in seen:
+                continue
+            seen.add(m)
+            ev.append(record_deser(m, cls))
+    # serialisation round trip on fields of derived keys, every way the signature allows the integers to be passed
+    n_ser = 0
+    for e in ev:
+        if e["op"] != "derive" or n_ser >= (8 if q else 160):
+            continue
+        t = len(e["nodes"]) - 1
+        nd = e["nodes"][t]
+        if nd["kn"]["st"] != "ok" or len(nd["kn"]["v"]) != 96 or nd["xs"]["st"] != "ok" or t == 0:
+            continue
+        K, cc = nd["kn"]["v"][:64], nd["kn"]["v"][64:]
+        raw = _unb58(bytes(nd["xs"]["v"]))
+        fp, idx, k = raw[5:9], raw[9:13], raw[46:78]
+        for how in (("bb", "ib", "bi", "ii") if n_ser % 2 == 0 else ("bi", "bb43" if e["net"] == "main" else "ib")):
+            prv = (n_ser + len(how)) % 2 == 0
+            ev.append(record_ser(prv, list(k) if prv else K, cc, t, fp, idx, e["net"], how))
+            n_ser += 1
+    for i, e in enumerate(ev):
+        e["id"] = i
+    return ev
+
+
+def _self_tests(ev):
+    """binding self-test: corrupt one byte of a logged xpub / of a logged CKDpub result, flip a logged accept bit,
+    corrupt a returned field -> the validator must object (same TLC batch as the real events)."""
+    der = next((e for e in ev if e["op"] == "derive" and len(e["path"]) == 1 and e["path"][0][0] < 128
+                and e["nodes"][1]["pu"]["st"] == "ok" and len(e["nodes"][1]["kq"]["v"]) == 96), None)
+    des = next((e for e in ev if e["op"] == "deser" and e["acc"] and len(e["f"]) > 20), None)
+    out = []
+    if der is not None:
+        bad1 = json.loads(json.dumps(der))
+        v = bad1["nodes"][1]["pu"]["v"]
+        v[50] = ALPHA[(ALPHA.index(bytes([v[50]])) + 1) % 58]
+        bad2 = json.loads(json.dumps(der))
+        bad2["nodes"][1]["kq"]["v"][40] ^= 1
+        out += [(bad1, der["id"], "xpub-wrong"), (bad2, der["id"], "ckdpub-wrong")]
+    if des is not None:
+        bad4 = json.loads(json.dumps(des))
+        bad4["f"][20] ^= 4
+        out += [(dict(des, acc=False), des["id"], "deser-rejects-valid-key"), (bad4, des["id"], "deser-fields-wrong")]
+    for k, (e, _, _) in enumerate(out):
+        e["id"] = 10 ** 6 + k
+    return out
+
+
+def _rec_job(a):
+    return record_derive(*a)
+
+
+def _pool_init(repo):
+    os.environ["VERIF_REPO"] = repo
+    vlib.REPO = repo
+    vlib.bind_repo()
+
+
+def record_scenarios(scen, procs):
+    """Record the scenarios in worker processes (the pure-Python scalar multiplication is slow)."""
+    import multiprocessing as mp
+    if procs <= 1 or len(scen) < 4:
+        return [record_derive(*a) for a in scen]
+    with mp.get_context("spawn").Pool(procs, initializer=_pool_init, initargs=(vlib.REPO,)) as pool:
+        return pool.map(_rec_job, scen, chunksize=1)
+
+
+# ------------------------------------------------------------------------------ verdicts -> violations
+def _report(ctx, ev, verdicts):
+    for e in ev:
+        v = verdicts[e["id"]]
+        if e["op"] == "derive":
+            ctx.nontrivial(("C", "derive", e["text"], e["net"], e["j"]))
+        elif e.get("cls") != "valid":
+            ctx.nontrivial(("C", e["op"], e.get("cls"), bytes(e.get("s", e.get("key", [])))[:24]))
+        if v != "ok":
+            ctx.violation(v, case_of(e), f"Trace_Bip32 verdict {v}")
+
+
+def _check_selftests(st, verdicts):
+    for e, orig, want in st:
+        got = verdicts[e["id"]]
+        if got == "ok" or (verdicts.get(orig) == "ok" and got != want):
+            raise vlib.MachineryFailure(f"binding self-test: corrupted event judged {got!r}, expected {want!r}")
+
+
+def _vector_selftest(ctx):
+    ev = vector_events()
+    d3 = next(e for e in ev if e.get("cls") == "test_vector_3")
+    bad = json.loads(json.dumps(d3))
+    bad["nodes"][1]["pu"]["v"][30] = ALPHA[(ALPHA.index(bytes([bad["nodes"][1]["pu"]["v"][30]])) + 7) % 58]
+    bad["id"] = len(ev)
+    inv = next(e for e in ev if e.get("cls", "").startswith("vector5"))
+    bad2 = dict(inv, acc=True, id=len(ev) + 1)
+    verdicts, stats = judge(ev + [bad, bad2], "b32v", bins=5)
+    wrong = {e["cls"]: verdicts[e["id"]] for e in ev if verdicts[e["id"]] != "ok"}
+    if wrong:
+        raise vlib.MachineryFailure(f"spec self-test: Bip32.tla disagrees with the published BIP32 vectors: {wrong}")
+    if verdicts[bad["id"]] != "xpub-wrong" or verdicts[bad2["id"]] != "deser-accepts-invalid-key":
+        raise vlib.MachineryFailure(f"spec self-test: corrupted vector judged {verdicts[bad['id']]!r} / {verdicts[bad2['id']]!r}")
+    return len(ev), stats
+
+
+def run(ctx):
+    q = ctx.tier == "quick"
+    ctx.rule = ("stage B: every TLC-enumerated scenario (all index-class shapes up to the full length + stepping shapes up to depth 8, both "
+                "networks, every neuter point); stage C: boundary child numbers {0,1,2^31-1,2^31,2^31+1,2^32-1} first, then seeded random "
+                "paths of depth 0..8 with seeds of 16..64 bytes, m/ and M/ derivation, and every field/length/checksum/character mutation "
+                "class of serialised keys; non-trivial = every derive scenario (distinct path text/net/neuter point) and every mutated key")
+    ctx.assumptions = [
+        "Native.java HMAC-SHA512 / SHA-256 / RIPEMD-160 / BigInteger (JDK, self-tested each run); BIP32 itself (CKD, serialisation, "
+        "path machine) and the group law are TLA+ evaluated by TLC = the 'independent BIP32 implementation'",
+        "stage A proves the identities OF THE SPECIFICATION on small curves with a toy HMAC whose I_L is reduced to 0..n+3; bip32.py "
+        "asserts on the 32-byte I_L < n of secp256k1, so retargeting the code to a small curve is meaningless and the code is bound at "
+        "secp256k1 size only, where the I_L >= n / child = 0 / infinity branches are unreachable (probability < 2^-127)",
+        "the published BIP32 test vectors (spec/Vectors_Bip32.json, transcribed from /repo/tests/unit/test_bip32.py) anchor the spec: "
+        "all 4 derivation chains and the 16 invalid keys of vector 5 pass through the same validator on every run",
+        "a hardened child number written as a plain decimal >= 2^31 is not BIP32 notation: the code may refuse it, but if it "
+        "accepts the result must be the hardened child; bytes (not str) are passed as serialised keys, as the test-suite does",
+    ]
+    vlib.native_selftest()
+    rnd = random.Random(ctx.seed * 104729 + 9)
+    nslices = 8 if q else 16
+    with ThreadPoolExecutor(max_workers=24) as ex:
+        fa = {cfg: ex.submit(vlib.tlc, mod, cfg, timeout=3000, **kw) for cfg, (mod, kw) in _stage_a_jobs(ctx).items()}
+        fvec = ex.submit(_vector_selftest, ctx)
+        ev = _gen_c(ctx, rnd)                     # real code, recorded in worker processes while TLC runs stage A
+        fgen = ex.submit(_gen_rows, ctx, nslices)
+        st = _self_tests(ev)
+        verdicts, stats = judge(ev + [e for e, _, _ in st], "b32c", bins=16)
+        rows, gwall = fgen.result()
+        nvec, vstats = fvec.result()
+        res_a = {cfg: f.result() for cfg, f in fa.items()}
+    _stage_a_eval(ctx, res_a)
+    _stage_b(ctx, rows, gwall, _gen_cfg(ctx, 0, nslices)[1])
+    _check_selftests(st, verdicts)
+    _report(ctx, ev, verdicts)
+    nd = sum(1 for e in ev if e["op"] == "derive")
+    ctx.stage_c("Trace_Bip32 (secp256k1, real HMAC-SHA512)", len(ev), stats, derive_scenarios=nd,
+                derivation_steps=sum(len(e["path"]) for e in ev if e["op"] == "derive"),
+                deser_mutations=sum(1 for e in ev if e["op"] == "deser"), ser_roundtrips=sum(1 for e in ev if e["op"] == "ser"),
+                binding_selftests=len(st))
+    ctx.stage_c("Trace_Bip32 spec self-test on the published BIP32 vectors (not implementation traces)", 0, vstats, vector_events=nvec)
+    e = next((e for e in ev if e["op"] == "derive" and len(e["path"]) >= 3), ev[0])
+    ctx.sample({"stage": "C", "derive": {"path": e["text"], "net": e["net"], "seed_len": len(e["seed"]), "neuter_at": e["j"],
+                                         "xpub": bytes(e["nodes"][-1]["pu"]["v"]).decode("ascii", "replace"), "verdict": verdicts[e["id"]]}})
+    e = next((e for e in ev if e["op"] == "deser" and not e["acc"]), None)
+    if e:
+        ctx.sample({"stage": "C", "deser": {"cls": e["cls"], "s": bytes(e["s"]).decode("ascii", "replace"), "accepted": e["acc"],
+                                            "verdict": verdicts[e["id"]]}})
+
+
+def replay(ctx, path):
+    """Re-run the code on the recorded inputs and judge again."""
+    doc = json.load(open(path))
+    ctx.rule = "replay of recorded failing cases (the code is called again on the recorded inputs)"
+    ev, nb = [], 0
+    for c in doc["cases"]:
+        c = c["case"]
+        if c.get("stage") == "B":
+            nb += replay_row(ctx, c, stage="B")
+            continue
+        if c["op"] == "derive":
+            e = record_derive(bytes(c["seed"]), c["net"], [int.from_bytes(bytes(i), "big") for i in c["path"]], c["j"], c.get("notation", "prime"))
+            e["notation"] = c.get("notation", "prime")
+        elif c["op"] == "deser":
+            e = record_deser(bytes(c["s"]), c.get("cls", "replay"))
+        elif c["op"] == "ser":
+            e = record_ser(c["prv"], c["key"], c["cc"], c["depth"], c["fp"], c["idx"], c["net"], c["how"])
+        else:
+            raise vlib.MachineryFailure(f"cannot replay op {c['op']}")
+        e["cls"] = c.get("cls", "replay")
+        e["id"] = len(ev)
+        ev.append(e)
+    if nb:
+        ctx.stage_b("replayed Gen_Bip32 rows", nb)
+    if ev:
+        verdicts, stats = judge(ev, "b32r", bins=8)
+        _report(ctx, ev, verdicts)
+        ctx.stage_c("Trace_Bip32 replay", len(ev), stats)
